@@ -168,6 +168,8 @@ def datatype_copy_rebuilds():
     ok = ok and _stmts(find_func(find_class(t, 'TupleOf'), 'copy')) == ['return TupleOf(*(m.copy() for m in self.members))']
     ok = ok and _stmts(find_func(find_class(t, 'StructOf'), 'copy')) == \
         ['return StructOf(self.optional, **{k: v.copy() for k, v in self.members.items()})']
+    ok = ok and _stmts(find_func(find_class(t, 'LimitsType'), 'copy')) == ['return LimitsType(TupleOf.copy(self).members[0])']
+    ok = ok and _stmts(find_func(find_class(t, 'TextType'), 'copy')) == ['return TextType(self.maxchars)']
     return 'bool', cbool(ok)
 
 
